@@ -253,6 +253,45 @@ func c17Run(c *core.Ctx, i int) {
 		text := "acc := 0\nfor i := range 10000\n    loc := i % 7\n    if loc == 3\n        t := acc\n        acc = t + 1\n    else\n        acc = acc + loc\n    end\nend\nw := 0\nwhile w < 10000\n    w = w + 1\n    for j := range [1 2]\n        acc = acc + j\n        if j == 1\n            break\n        end\n    end\nend\n"
 		c.Distinct(text + fmt.Sprint(i))
 		c17Check(c, text, "long-loop")
+	case i%8 == 3 && i%16 == 3:
+		// a loop placed so that its jump targets sweep over every byte offset around round numbers
+		// (a placeholder value that collides with a real target, an off-by-one at a size boundary)
+		c.Cover("shape", "offset-sweep")
+		base := []int{9999, 255, 256, 4095, 65000, 9998, 10000, 1000}[(i/16)%8]
+		off := base - 40 + r.Intn(60)
+		tens, sixes := off/10, 0
+		for (off-tens*10-sixes*6)%2 != 0 || off-tens*10-sixes*6 < 0 || (off-tens*10-sixes*6) > 0 && sixes < 5 {
+			if off-tens*10-sixes*6 >= 6 {
+				sixes++
+			} else {
+				break
+			}
+		}
+		var b strings.Builder
+		b.WriteString("x := 0\nn := 0\n")
+		for k := 0; k < tens; k++ {
+			b.WriteString("x = x + 1\n") // 10 bytes of bytecode
+		}
+		for k := 0; k < sixes; k++ {
+			b.WriteString("x = 1\n") // 6 bytes
+		}
+		body := []string{
+			"for range 2\n    w := 0\n    while w < 3\n        w = w + 1\n        n = n + w\n    end\nend\n",
+			"for i := range 3\n    if i == 1\n        n = n + 10\n    else\n        n = n + 1\n    end\nend\nwhile n < 50\n    n = n + 7\n    if n > 40\n        break\n    end\nend\n",
+			"w := 0\nwhile w < 4\n    w = w + 1\n    for j := range [1 2]\n        n = n + j\n        if j == 1\n            break\n        end\n    end\nend\n",
+		}[r.Intn(3)]
+		b.WriteString(body + "done := true\n")
+		text := b.String()
+		c.Distinct(text)
+		c17Check(c, text, "offset-sweep")
+	case i%8 == 4 && i%32 == 4:
+		// strings with characters of several bytes: whatever the VM computes, it must not crash
+		c.Cover("shape", "non-ascii-strings")
+		str := []string{"héllo", "日本", "ab🌍", "🌍", "é", "aé", "x\u0301y"}[r.Intn(7)]
+		text := "s := \"" + str + "\"\nacc := \"\"\ncnt := 0\nfor ch := range s\n    acc = acc + ch\n    cnt = cnt + 1\nend\nfor range s\n    cnt = cnt + 1\nend\n" +
+			"t := s + s\nfor ch := range t\n    cnt = cnt + 1\n    if cnt > 100\n        break\n    end\nend\nu := s[0]\nv := s[:1]\nl := len s\nw := s[-1]\n"
+		c.Distinct(text)
+		c17Check(c, text, "non-ascii")
 	case i%8 == 2:
 		c17Symbols(c)
 	default:
